@@ -65,24 +65,31 @@ type Term struct {
 }
 
 type termKey struct {
-	op         Op
-	w          int
-	a, b, c    int
-	k          uint64
-	k2         int
-	name       string
+	op      Op
+	w       uint8
+	a, b, c int32
+	k       uint64
+	k2      int32
+}
+
+type nameKey struct {
+	op   Op
+	w    uint8
+	a    int32
+	name string
 }
 
 type TermTab struct {
 	terms []*Term
 	idx   map[termKey]*Term
+	nidx  map[nameKey]*Term
 	pins  map[int]uint64 // term id -> constant value known on this path
 	vars  []*Term
 	apps  []*Term
 }
 
 func NewTermTab() *TermTab {
-	return &TermTab{idx: make(map[termKey]*Term, 1024), pins: make(map[int]uint64)}
+	return &TermTab{idx: make(map[termKey]*Term, 1024), nidx: make(map[nameKey]*Term, 64), pins: make(map[int]uint64)}
 }
 
 func tid(t *Term) int {
@@ -93,13 +100,27 @@ func tid(t *Term) int {
 }
 
 func (tt *TermTab) mk(op Op, w int, a, b, c *Term, k uint64, k2 int, name string) *Term {
-	key := termKey{op, w, tid(a), tid(b), tid(c), k, k2, name}
-	if t, ok := tt.idx[key]; ok {
-		return t
+	var key termKey
+	var nkey nameKey
+	named := name != ""
+	if named {
+		nkey = nameKey{op, uint8(w), int32(tid(a)), name}
+		if t, ok := tt.nidx[nkey]; ok {
+			return t
+		}
+	} else {
+		key = termKey{op, uint8(w), int32(tid(a)), int32(tid(b)), int32(tid(c)), k, int32(k2)}
+		if t, ok := tt.idx[key]; ok {
+			return t
+		}
 	}
 	t := &Term{id: len(tt.terms), op: op, w: w, a: a, b: b, c: c, k: k, k2: k2, name: name}
 	tt.terms = append(tt.terms, t)
-	tt.idx[key] = t
+	if named {
+		tt.nidx[nkey] = t
+	} else {
+		tt.idx[key] = t
+	}
 	if op == OVar {
 		tt.vars = append(tt.vars, t)
 	}
